@@ -3,4 +3,5 @@ import CatiiProps.C09
 import CatiiProps.C10
 import CatiiProps.C11
 import CatiiProps.C12
+import CatiiProps.C14
 import CatiiProps.C19
